@@ -233,6 +233,13 @@ func (s crashSpec) String() string {
 	return fmt.Sprintf("%s#%d:%s", s.Point, s.Hit, s.Signal)
 }
 
+// monitorPoints: hook points of the job monitor at which it can signal mrp
+// (crashSpec.JobAt -> point name).
+var monitorPoints = map[string]string{
+	"pre_complete": "meta:write:complete",   // about to write _complete
+	"complete":     "meta:journal:complete", // _complete written, journal entry not yet
+}
+
 var metaJobRe = regexp.MustCompile(`/(split|join|chnk\d+)(-u[0-9a-f]{10})?$`)
 
 // completedJobs lists jobs whose _complete marker exists, with its mtime.
@@ -304,7 +311,10 @@ func runCrashCase(c *vf.Ctx, fp *faultProgram, idx int, specs []crashSpec) *cras
 	}
 	for si, sp := range specs {
 		opts := vrun.RunOpts{Args: mrpArgs(fp.vdr), Seed: fp.seed, Timeout: 90 * time.Second}
-		if sp.Job != "" {
+		if pt, ok := monitorPoints[sp.JobAt]; ok && sp.Job != "" {
+			// the job's monitor (mrjob) signals mrp at one of its own hook points
+			opts.Env = append(opts.Env, fmt.Sprintf("VERIF_KILL_PARENT=%s#1:%s@%s", pt, sp.Signal, strings.ReplaceAll(sp.Job, "/", ".")))
+		} else if sp.Job != "" {
 			cs.Spec.Rules = append([]pgen.Rule{{Job: sp.Job, KillMrp: sp.Signal, KillMrpAt: sp.JobAt, Attempt: 0}}, baseRules...)
 			cs.WriteSpec()
 		} else {
@@ -351,6 +361,19 @@ func runCrashCase(c *vf.Ctx, fp *faultProgram, idx int, specs []crashSpec) *cras
 				add("lock-left-after-handled-signal:"+sp.Signal, fmt.Sprintf("mrp handled SIG%s at %v but _lock is still present", sp.Signal, sp))
 			}
 			os.Remove(lock)
+		}
+		if sp.JobAt == "complete" && sp.Job != "" {
+			// the monitor signalled mrp after it had written the job's
+			// _complete: recorded before the interruption by construction
+			for _, t := range cs.Trace() {
+				if strings.HasPrefix(t.Crash, "parent:") {
+					for j, mt := range completedJobs(cs) {
+						if logicalJob(j) == logicalJob(sp.Job) {
+							done[logicalJob(j)] = mt
+						}
+					}
+				}
+			}
 		}
 		// completion markers durably recorded before the interruption
 		for j, mt := range completedJobs(cs) {
@@ -557,6 +580,13 @@ func init() {
 						addSpec(sp)
 					}
 				}
+			}
+			// the job monitor signals mrp just before / just after it records
+			// the job's completion (and is itself signalled by mrp's death)
+			nm := c.Pick(4, 16)
+			for k := 0; k < nm && len(fp.jobs) > 0; k++ {
+				j := fp.jobs[rng.Intn(len(fp.jobs))]
+				addSpec(crashSpec{Job: j, JobAt: []string{"complete", "complete", "pre_complete", "complete"}[k%4], Signal: []string{"KILL", "TERM", "KILL", "INT"}[k%4]})
 			}
 			// job-side kills
 			nj := c.Pick(4, 16)
